@@ -2,6 +2,7 @@ package main
 
 import (
 	"math/rand"
+	"strings"
 )
 
 func init() {
@@ -34,10 +35,33 @@ func genC01(e *emitter, tier string, seed int64) {
 		}
 		e.emit(out)
 	}
+	// values that contain themselves (a[0] = a; a map holding a list holding the map) through every consumer:
+	// formatting, output, stores into the point, membership, comparison, iteration, slicing, len, JSON
+	makers := []string{"a = [1]\na[0] = a\n", "a = {\"k\": 1}\na[\"k\"] = a\n", "b = [1, 2]\na = {\"l\": b}\nb[1] = a\n", "a = [[1], 2]\na[0][0] = a\n", "a = [1, [2]]\nb = [a, a]\na = b\n"}
+	users := []string{"strfmt(r, \"%v\", a)\np(get_key(r))", "strfmt(r, \"%v|%v\", 1, a)", "strfmt(r, \"%d\", p(1), a, p(2))", "printf(\"%v\\n\", a)", "printf(\"%v %v\\n\", \"x\", a)",
+		"add_key(k, a)\np(get_key(k))", "set_tag(t, a)", "p(a)", "p(len(a))", "p(a in [a])", "p(a == a)", "for x in a {\n  p(len(x))\n}", "c = a[0:1]\np(c)", "c = a[::-1]\np(c)",
+		"cast(a, \"str\")", "p(a[0])", "set_measurement(a)", "x = [a, a]\nstrfmt(r, \"%v\", x)", "m2 = {\"q\": a}\nprintf(\"%v\", m2)", "rename(nn, a)", "uppercase(a)", "x = a + a", "x = -a", "if a {\n  p(\"truthy\")\n}",
+		"cast(a, \"int\")", "cast(a, \"bool\")", "cast(a, \"float\")", "trim(a)", "replace(a, \"x\", \"y\")", "url_decode(a)", "p(load_json(a))", "datetime(a, \"s\", \"RFC3339\")", "default_time(a)",
+		"grok(a, \"%{WORD:w}\")", "sql_cover(a)", "xml(a, \"/a\", out)", "drop_key(a)", "add_key(a)", "add_key(a, a)", "p(a < a)", "p(a != [a])", "x = a % 2", "a += 1", "p(!a)", "m3 = {\"k\": a}\np(m3 == m3, \"k\" in m3)", "strfmt(r, \"%s\", [a])", "p(get_key(a))", "p([a] in [[a]])"}
+	for _, mk := range makers {
+		for _, u := range users {
+			src := mk + u + "\np(\"end\")\n"
+			out := runV1(runCase{Scripts: []scriptSrc{{"main.p", src}}, Entry: "main.p", Point: stdPoint(rng), HasSig: true, SigK: 3000})
+			out["gen"], out["key"], out["strict"] = "self-containing", src, true
+			e.stat("self-containing")
+			e.emit(out)
+		}
+	}
 	// every builtin with the argument shapes its checker accepts, over subjects of every kind:
 	// the matrices of C11 and C12, here under the no-panic specification
 	genC11(e, tier, seed)
 	genC12(e, tier, seed)
+	// indexing, slicing, membership, literals and aliasing (C04) and the operator table (C02), here under
+	// the no-panic specification as well
+	genC04(e, tier, seed)
+	if tier == "thorough" {
+		genC02(e, tier, seed)
+	}
 }
 
 // C03: control flow and scoping; no builtins with engines, probes are the only effects besides variables
@@ -72,6 +96,15 @@ func genC03(e *emitter, tier string, seed int64) {
 			emitCtl("k = 1\nr = \"none\"\nif "+c1+" "+blk(0, "if")+" elif "+c2+" "+blk(1, "elif1")+" elif "+c3+" "+blk(2, "elif2")+" else "+blk(3, "else")+"\np(r)\n", "branch-selection")
 			if mask < 4 {
 				emitCtl("k = 1\nr = \"none\"\nif "+c1+" "+blk(0, "if")+" else "+blk(1, "else")+"\np(r)\nif "+c2+" "+blk(1, "if2")+"\np(r)\n", "branch-selection")
+			}
+		}
+	}
+	// assignments and compound assignments inside every kind of block to a name that is a point key, a tag,
+	// an outer variable, or nothing: what the block created is gone after it, what it updated stays
+	for _, blk := range []string{"if true {\n@\n}", "if false {\n} else {\n@\n}", "if false {\n} elif 1 {\n@\n}", "for i = 0; i < 2; i = i + 1 {\n@\n}", "for x in [1, 2] {\n@\n}", "if true {\n  if true {\n@\n  }\n}", "for x in \"ab\" {\n  if x == \"a\" {\n@\n  }\n}"} {
+		for _, body := range []string{"K += 1", "K -= 1\nK *= 2", "K += 1\np(K)", "K = K + 1", "K += 1\nK = 9", "K = 7", "K %= 3\np(\"in\", K, get_key(K))", "p(K)\nK += 2\nK += 2"} {
+			for _, k := range []string{"f1", "nf", "ov", "t1", "message"} {
+				emitCtl("ov = 3\n"+strings.ReplaceAll(strings.ReplaceAll(blk, "@", body), "K", k)+"\np(\"after\", "+k+", get_key("+k+"))\n", "block-assignments")
 			}
 		}
 	}
